@@ -124,6 +124,33 @@ def run_provider(work, which, tier, tag, only=None):
     return read_ndjson(tf)
 
 
+def run_rediscreds(work, tier, tag, only=None):
+    """Credentials file of the redis cache back ends (overlay test in internal/cache/redis): the listener the
+    cache registers with the watcher is called with valid, mixed valid / refused, type-confused and half-written
+    files; what the client would authenticate with afterwards is the state."""
+    pkg, test = "internal/cache/redis", "c19_rediscreds_test.go"
+    tf = work.path("trace_rediscreds_%s.ndjson" % tag)
+    ov = work.path("overlay_c19_rediscreds_%s.json" % tag)
+    src = os.path.join(verif.HARNESS, "overlay", test)
+    if not os.path.exists(src):
+        raise Infra("overlay source missing: " + src)
+    with open(ov, "w") as f:
+        json.dump({"Replace": {os.path.join(verif.REPO, pkg, test): src}}, f)
+    cmd = ["go", "test", "-tags", "verif", "-vet=off", "-count=1", "-overlay", ov, "-run", "^TestVerifC19RedisCredentials$",
+           "-timeout", "600s", "./" + pkg]
+    e = verif.goenv()
+    e.update({"VERIF_WORK": verif.WORKROOT, "VERIF_C19_TRACE": tf, "VERIF_C19_TIER": tier})
+    if only is not None:
+        mine = [i for i in only if i.startswith("redis-credentials/")]
+        if not mine:
+            return []
+        e["VERIF_C19_ONLY"] = "\n".join(mine)
+    p = subprocess.run(cmd, cwd=verif.REPO, env=e, capture_output=True, text=True, timeout=1200)
+    if p.returncode != 0 or not os.path.exists(tf):
+        raise Infra("C19 redis credentials driver failed (rc=%d):\n%s" % (p.returncode, (p.stdout + p.stderr)[-4000:]))
+    return read_ndjson(tf)
+
+
 def run_drv(work, binary, tier, seed, tag, only=None):
     tf = work.path("trace_drv_%s.ndjson" % tag)
     args = ["run", "-trace", tf, "-tier", tier, "-seed", seed, "-fixtures", FIXTURES]
@@ -174,12 +201,13 @@ def run_drv(work, binary, tier, seed, tag, only=None):
 
 
 def execute(work, binary, tier, seed, tag, only=None):
-    with ThreadPoolExecutor(max_workers=4) as ex:
+    with ThreadPoolExecutor(max_workers=5) as ex:
+        rc = ex.submit(run_rediscreds, work, tier, tag, only)
         k = ex.submit(run_k8s, work, tag)
         pf = ex.submit(run_provider, work, "fs", tier, tag, only)
         ph = ex.submit(run_provider, work, "http", tier, tag, only)
         d = run_drv(work, binary, tier, seed, tag, only)
-        lines = d + k.result() + pf.result() + ph.result()
+        lines = d + k.result() + pf.result() + ph.result() + rc.result()
     if only is not None:
         lines = [x for x in lines if x["id"] in only]
     return lines
